@@ -277,7 +277,7 @@ impl System for LockStep {
         let hidden = format!(
             "{:?}",
             (
-                (m.col, m.row, m.pending, m.pen, m.awm, m.irm, m.origin),
+                (m.col, m.row, m.pending, m.pen, m.awm, m.irm, m.origin, m.lnm),
                 (m.g, m.active, m.top, m.bottom, &m.tabs),
                 (&m.saved, &m.other_saved, m.visible, m.ckm, m.alt_showing(), st.dead)
             )
